@@ -172,6 +172,16 @@ def run(chk):
     modelled_cls = [c for c in all_cls if c not in unmodelled_cls]
     stats = {}
     total = {"spec": 0, "fault": 0, "diff": 0}
+    # corpus: the witness of every listed known finding is replayed first, so that a KNOWN-FINDING line is printed
+    # because the finding was observed in this run (and it disappears from the output once the code is repaired)
+    for kf in chk.known:
+        sg = kf.get("signature", {})
+        wit = kf.get("witness")
+        if wit and sg.get("cls") in g["classes"]:
+            k = g["classes"][sg["cls"]]
+            ops = [f"init {k['name']} {g['defaults'][k['name']]} {mask_hex(k)}"] + list(wit)
+            corr.correspond(chk, AREA, exe, ops, case_start=("init",), classify=classify, sig_of=sig_of,
+                            model=(k["name"] in modelled_cls), max_reports=2)
     for group, with_model in ((modelled_cls, True), (unmodelled_cls, False)):
         for cname in group:
             ops = gen_ops(g, rng, chk.tier, only={cname})
